@@ -143,7 +143,12 @@ def r2(idx, rep):
     for t, v, st in K.stores_in(init.node):
         if isinstance(t, ast.Attribute) and isinstance(v, ast.Call) and isinstance(v.func, ast.Name) and v.func.id.endswith("Mode"):
             created[t.attr] = v.func.id
-    updated = [K.call_receiver(c) for c in walk_no_nested(upd.node) if isinstance(c, ast.Call) and call_name(c) == "update"]
+    # interpreted: which of the mode objects does update() refresh (however it walks them)
+    updated = []
+    itu = Interp(idx, types={"self": "ModeController"}, unknown_calls="residual", handlers={".update": lambda i, c, r, a, k: updated.append("self." + r.name)})
+    psu = itu.run_all(upd, store=dict({f"self.{a}": Obj(a) for a in created}, **K.instance_store(idx, "ModeController")) | {f"self.{a}": Obj(a) for a in created})
+    if len(psu) != 1 or psu[0].result[0] != "return":
+        raise AnalysisError(f"C15.R2: ModeController.update is not a single normal path on the model ({[p.result for p in psu][:2]})")
     for attr, cls in created.items():
         rep.check(f"self.{attr}" in updated, "R2", f"{ci.file}::ModeController.update updates {attr}", f"{cls} is created but never updated from the metadata: its setting would be ignored", K.where(upd, upd.node))
     rep.floor("R2", 8, "mode objects")
